@@ -491,19 +491,26 @@ func (e *Engine) translateFunc(key string, preCells []*Cell) (res *funcResult) {
 	}()
 	var renames map[string]string
 	if len(fc.Locals) > 0 {
+		// locals renamed since the contract was written: same number of declarations, and every
+		// declaration of the old name is now a declaration of one new name that the contract does
+		// not use for anything else (the k-th declaration stays the k-th: name@k still binds)
 		cur := declaredNames(fn)
 		if len(cur) == len(fc.Locals) {
-			cnt := func(l []string, n string) int {
-				c := 0
-				for _, x := range l {
+			positions := func(l []string, n string) string {
+				var ps []string
+				for i, x := range l {
 					if x == n {
-						c++
+						ps = append(ps, itoa(i))
 					}
 				}
-				return c
+				return strings.Join(ps, ",")
 			}
 			for i, old := range fc.Locals {
-				if nw := cur[i]; nw != old && cnt(fc.Locals, old) == 1 && cnt(cur, nw) == 1 && cnt(fc.Locals, nw) == 0 {
+				nw := cur[i]
+				if nw == old || old == "_" || nw == "_" {
+					continue
+				}
+				if positions(fc.Locals, old) == positions(cur, nw) && positions(fc.Locals, nw) == "" {
 					if renames == nil {
 						renames = map[string]string{}
 					}
@@ -758,6 +765,21 @@ func (e *Engine) translateFunc(key string, preCells []*Cell) (res *funcResult) {
 		return inv
 	}
 	libs := append([]string{}, fc.Uses...)
+	// the spec libraries of the callees' contracts: their clauses are assumed / asserted here
+	var extra []string
+	for l := range t.calleeLibs {
+		if hasProp(libs, l) {
+			continue
+		}
+		for fn := range t.usedSpecFuncs {
+			if strings.HasPrefix(fn, l+".") {
+				extra = append(extra, l) // a clause of a callee that mentions this library was instantiated here
+				break
+			}
+		}
+	}
+	sort.Strings(extra)
+	libs = append(libs, extra...)
 	prel := e.prelude(th, libs)
 	if len(fc.Opaque) > 0 {
 		// proving with a defined function left uninterpreted proves it for every function
@@ -777,6 +799,8 @@ func (e *Engine) translateFunc(key string, preCells []*Cell) (res *funcResult) {
 	t.proc.LemmaFor = fc.LemmaFor
 	t.proc.SliceOut = fc.SliceOut
 	t.proc.FactFor = fc.FactFor
+	t.proc.OpaqueFor = fc.OpaqueFor
+	t.proc.Focus = fc.Focus
 	obls, err := GenVCs(t.proc, prel)
 	if err != nil {
 		res.Err = err.Error()
